@@ -38,6 +38,7 @@ func runC17(c *Ctx) {
 	ruleReplayUnconditional(c, "C17.14")
 	ruleListEveryDB(c, "C17.15")
 	c04FlushOrder(c, "C17.16")
+	ruleCloseFlushes(c, "C17.17")
 }
 
 func c17Paths(c *Ctx, rule string) {
